@@ -22,8 +22,8 @@ LQ_RICH = {(0, 0, 0), (0, 0, 1), (0, 1, 1), (1, 1, 1), (0, 1, 2), (1, 1, 2), (0,
 VARIANTS = {
     'maxsize': [C('maxsize')],
     'minsize': [C('minsize')],
-    'gen': [C('gen'), C('gen', 1), C('gen', 2)],
-    'gre': [C('gre'), C('gre', 1), C('gre', 2), C('gre', 7), C('gre', 12)],
+    'gen': [C('gen'), C('gen', 1), C('gen', 2), C('gen', 3), C('gen', 4)],
+    'gre': [C('gre'), C('gre', 1), C('gre', 2), C('gre', 3), C('gre', 7), C('gre', 12)],
     'mincost': [C('mincost'), C('mincost', 1, 1), C('mincost', 0, 1), C('mincost', 2, 1), C('mincost', 1, 0), C('mincost', 10, 1)],
     'minsqcost': [C('minsqcost'), C('minsqcost', 1, 1), C('minsqcost', 0, 1), C('minsqcost', 2)],
     'lmb': [C('lmb')],
@@ -177,5 +177,14 @@ def four_long(**over):
     """one or two students with lists of four projects, every tie structure"""
     d = dict(NA=3, NS=2, NP=4, NL=2, MaxLen=4, TieMode='all', AllowEmpty=False, PQ={(0, 1), (0, 2)}, LQ={(0, 1, 2), (0, 2, 2)},
              LecMapMode='mono', Sided={'one', 'two'}, OrderMode='asc', Stabs={False, True})
+    d.update(over)
+    return fam(**d)
+
+
+def lec3(**over):
+    """three lecturers for two students and three projects: lecturers without project, one lecturer for everything"""
+    d = dict(NA=3, NS=2, NP=3, NL=3, MaxLen=3, TieMode='all', AllowEmpty=True, PQ={(0, 1), (1, 1), (0, 2)},
+             LQ={(0, 0, 0), (0, 0, 1), (0, 1, 1), (1, 1, 2), (0, 2, 2)}, LecMapMode='all', Sided={'one', 'two'}, OrderMode='all',
+             Stabs={False, True})
     d.update(over)
     return fam(**d)
